@@ -13,7 +13,7 @@ import os, sys, json, tempfile, shutil
 import vlib, e2e, sync_e2e
 
 THEOREMS = ['C02_source_only_read', 'C02_read_only_changes_nothing', 'C02_through_needs_link', 'C02_clean_run_confined',
-            'C02_every_run_confined', 'C02_every_run_confined_executable', 'C02_no_run_goes_through_a_link', 'C02_executable_never_through', 'C02_dry_run_confined', 'C02_blocked_refused', 'C02_failed_delete_blocks', 'C02_blocked_stays', 'C02_src_sites_read_only', 'C02_walked_never_through', 'C02_spec_untouched']
+            'C02_every_run_confined', 'C02_every_run_confined_executable', 'C02_no_run_goes_through_a_link', 'C02_executable_never_through', 'C02_dry_run_confined', 'C02_blocked_refused', 'C02_failed_delete_blocks', 'C02_blocked_stays', 'C02_src_sites_read_only', 'C02_walked_never_through', 'C02_spec_untouched', 'C02_inside_root_adds_one_component', 'C02_F14_refuted_before_fix']
 
 READ_ONLY = {'SetRoot', 'GetEntries', 'GetFileContent', 'Marker', 'Shutdown', 'ProfilingTimeSync'}
 
@@ -104,6 +104,74 @@ def immutable_link_family(run, binary, base, prop, n=8):
         shutil.rmtree(root, ignore_errors=True)
 
 
+FAKE_SSH_HOME = r'''#!/bin/sh
+# fake ssh with a login directory: the remote command starts in $FAKE_SSH_HOME, as a real ssh session starts in the user's home
+cmd=$(printf '%s' "$2" | sed "s#/var/tmp/rjrssync/rjrssync#${FAKE_SSH_BINARY}#g")
+cd "$FAKE_SSH_HOME" || exit 97
+exec sh -c "$cmd"
+'''
+
+
+def relative_remote_family(run, binary, base, rng, n):
+    """A RELATIVE path on a remote side is relative to the ssh login directory (boss_launch.rs does not cd): `host:backup/data`
+    is <login dir>/backup/data.  Decoys of the same relative name sit in the temp directory, in the boss's working directory and in /:
+    none of them may change, the named one must be what the sync works on."""
+    for i in range(n):
+        root = tempfile.mkdtemp(prefix='rel_', dir=base)
+        try:
+            fb = os.path.join(root, 'fakebin')
+            os.makedirs(fb)
+            open(os.path.join(fb, 'ssh'), 'w').write(FAKE_SSH_HOME)
+            os.chmod(os.path.join(fb, 'ssh'), 0o755)
+            home, tmpd, cwd = (os.path.join(root, x) for x in ('home', 'tmp', 'cwd'))
+            src = {'': {'k': 'dir'}, 'a.txt': {'k': 'file', 'data': b'A%d' % i, 'mtime_ns': sync_e2e.T0 + i}, 'sub': {'k': 'dir'},
+                   'sub/b.txt': {'k': 'file', 'data': b'B', 'mtime_ns': sync_e2e.T0 + 3}}
+            decoy = {'': {'k': 'dir'}, 'unrelated.db': {'k': 'file', 'data': b'U', 'mtime_ns': sync_e2e.T0 - 7}, 'a.txt': {'k': 'file', 'data': b'old', 'mtime_ns': sync_e2e.T0 - 9}}
+            side = ('dest', 'src', 'both')[i % 3]
+            for d in (home, tmpd, cwd):
+                os.makedirs(os.path.join(d, 'backup'))
+                e2e.build_tree(os.path.join(d, 'backup', 'data'), decoy)
+            e2e.build_tree(os.path.join(root, 'abs_src'), src)
+            if side in ('src', 'both'):
+                shutil.rmtree(os.path.join(home, 'backup', 'data'))
+                e2e.build_tree(os.path.join(home, 'backup', 'data'), src)
+            if side == 'dest':
+                a = [os.path.join(root, 'abs_src') + '/', 'localhost:backup/data/']
+            elif side == 'src':
+                a = ['localhost:backup/data/', os.path.join(root, 'abs_dest') + '/']
+            else:
+                os.makedirs(os.path.join(home, 'copy'))
+                e2e.build_tree(os.path.join(home, 'copy', 'x'), decoy)
+                a = ['localhost:backup/data/', 'localhost:copy/x/']
+            dry = (i % 5 == 4)
+            snaps = lambda: {k: e2e.snapshot(os.path.join(root, k)) for k in ('home', 'tmp', 'cwd', 'abs_src', 'abs_dest')}
+            before = snaps()
+            r = e2e.run_cli(binary, a + ['--dest-entry-needs-deleting', 'delete'] + (['--dry-run'] if dry else []), cwd=cwd, fake_ssh=fb,
+                            env={'FAKE_SSH_HOME': home, 'TMPDIR': tmpd, 'HOME': home}, timeout=60)
+            after = snaps()
+            run.count('relative-remote:' + side)
+            run.case(('relative-remote', side, i, dry), True)
+            bad = None
+            for k in ('tmp', 'cwd', 'abs_src'):
+                if after[k] != before[k]:
+                    bad = 'a tree that is not the destination changed: %s (%s)' % (k, sorted(set(before[k].items()) ^ set(after[k].items()))[:3])
+            if not bad and r['exit'] != 0:
+                bad = 'exit %s: %s' % (r['exit'], r['stderr'][-300:])
+            if not bad and dry and after != before:
+                bad = 'the dry run changed something'
+            if not bad and not dry:
+                want_src = e2e.snapshot(os.path.join(root, 'abs_src'))
+                got = {'dest': e2e.snapshot(os.path.join(home, 'backup', 'data')), 'src': e2e.snapshot(os.path.join(root, 'abs_dest')),
+                       'both': e2e.snapshot(os.path.join(home, 'copy', 'x'))}[side]
+                if got != want_src:
+                    bad = 'the destination named on the command line (relative to the login directory) is not a mirror of the source'
+            if bad:
+                run.fail('C02 relative remote path (%s remote%s): %s' % (side, ', dry run' if dry else '', bad),
+                         {'family': 'relative-remote', 'side': side, 'args': a, 'dry': dry, 'exit': r['exit'], 'stderr': r['stderr'][-400:]})
+        finally:
+            shutil.rmtree(root, ignore_errors=True)
+
+
 def check(run):
     run.trusted = list(vlib.COMMON_TRUSTED) + ['the source-text scan of send_command sites (harness facts-sites) - the one syntactic input']
     run.assumptions = ['source and destination paths are not nested; no destination file is hard-linked from outside']
@@ -121,6 +189,9 @@ def check(run):
     fake = e2e.fake_ssh_dir(base)
     try:
         f6b_witness(run, binary, jbin, base, known)
+        from props.c01 import run_inside_names
+        run_inside_names(run, binary, base, prop='C02')          # F14: odd names of a file source placed inside a trailing-slash destination
+        relative_remote_family(run, binary, base, rng, 9 if quick else 60)
         from props.c12 import kept_link_scripted
         kept_link_scripted(run, binary, jbin, quick, prop='C02')
         scen = []
